@@ -353,6 +353,22 @@ def run_tr_als(X, rank, k, seed, opts):
     rec.errors = None
     return rec
 
+def run_tr_als_sampled(X, rank, k, seed, opts):
+    from tensorly.decomposition import tensor_ring_als_sampled
+    rec = Rec()
+    stop_at = opts.get("_stop_at")
+
+    def cb(dec, err):
+        rec.cb.append((dict(kind="tr", cores=[np.array(f, dtype=float) for f in dec]), float(err)))
+        return stop_at is not None and len(rec.cb) - 2 == stop_at
+
+    rk = [rank] * (X.ndim + 1)
+    out = tensor_ring_als_sampled(np.array(X), rk, opts.get("n_samples", 40), n_iter_max=k, tol=0, random_state=seed, callback=cb,
+                                  uniform_sampling=opts.get("uniform_sampling", False), randomized_error=False)
+    rec.final = dict(kind="tr", cores=[np.array(f, dtype=float) for f in out])
+    rec.errors = None
+    return rec
+
 
 def run_randomised(X, rank, k, seed, opts):
     from tensorly.decomposition import randomised_parafac
@@ -383,6 +399,45 @@ def run_cmtf(X, rank, k, seed, opts):
     rec.final = dict(kind="cmtf", cpX=_cp_it(tcp), cpY=_cp_it(mcp), Y=np.array(Y, dtype=float))
     rec.errors = [float(e) for e in errs]
     rec.squared_unnormalised = True
+    return rec
+
+# class API (DecompositionMixin wrappers): fit_transform stores decomposition_ / errors_ - the glue between the two is under the same check
+CLASS_TABLE = {
+    "CP": ("tensorly.decomposition._cp", "CP", "cp", dict(tol=0)),
+    "CP_NN": ("tensorly.decomposition._nn_cp", "CP_NN", "cp", dict(tol=1e-300)),
+    "CP_NN_HALS": ("tensorly.decomposition._nn_cp", "CP_NN_HALS", "cp", dict(tol=1e-300)),
+    "Tucker_NN": ("tensorly.decomposition._tucker", "Tucker_NN", "tucker", dict(tol=0)),
+    "Tucker_NN_HALS": ("tensorly.decomposition._tucker", "Tucker_NN_HALS", "tucker", dict(tol=0)),
+    "Parafac2": ("tensorly.decomposition._parafac2", "Parafac2", "parafac2", dict(tol=1e-300, return_errors=True, n_iter_parafac=3, init="random")),
+    "RandomizedCP": ("tensorly.decomposition._cp", "RandomizedCP", "cp", dict(tol=0, max_stagnation=1000, n_samples=40, init="random")),
+    "ConstrainedCP": ("tensorly.decomposition._constrained_cp", "ConstrainedCP", "cp", dict(tol_outer=0, init="random")),
+}
+
+
+def run_class(X, rank, k, seed, opts):
+    import importlib
+    o = dict(opts)
+    mod, cls, kind, base = CLASS_TABLE[o.pop("_class")]
+    Cls = getattr(importlib.import_module(mod), cls)
+    kw = dict(base); kw.update({kk: vv for kk, vv in o.items() if not kk.startswith("_")})
+    rk = [min(rank, d) for d in X.shape] if kind == "tucker" else rank
+    obj = Cls(rk, n_iter_max=k, random_state=seed, **kw)
+    buf = io.StringIO()
+    with contextlib.redirect_stdout(buf):
+        ret = obj.fit_transform(np.array(X))
+    dec = obj.decomposition_
+    rec = Rec()
+    rec.errors = [float(e) for e in obj.errors_]
+    if ret is not dec:
+        raise AssertionError("fit_transform does not return the stored decomposition_")
+    if kind == "cp":
+        rec.final = _cp_it(dec)
+    elif kind == "tucker":
+        rec.final = _tk_it(dec[0], dec[1])
+    else:
+        w, (A, B, Cm), Ps = dec
+        rec.final = dict(kind="parafac2", w=None if w is None else np.array(w, dtype=float), A=np.array(A, dtype=float), B=np.array(B, dtype=float),
+                         C=np.array(Cm, dtype=float), Ps=[np.array(P, dtype=float) for P in Ps], slices=[np.array(X[i], dtype=float) for i in range(X.shape[0])])
     return rec
 
 
@@ -484,6 +539,9 @@ def configs(tier):
         ("parafac2_nn", "tensorly.decomposition.parafac2", run_parafac2, dict(nn_modes=[0]), NN, [3], K),
         ("tr_als", "tensorly.decomposition.tensor_ring_als", run_tr_als, dict(ls_solve="lstsq"), G, [3, 4], K[-1:]),
         ("tr_als_ne", "tensorly.decomposition.tensor_ring_als", run_tr_als, dict(ls_solve="normal_eq"), G, [3], K[-1:]),
+        # sampled tensor-ring ALS with the exact (randomized_error=False) error: every callback pair, incl. a callback stop
+        ("tr_als_sampled", "tensorly.decomposition.tensor_ring_als_sampled", run_tr_als_sampled, dict(n_samples=40), G, [3], K[-1:]),
+        ("tr_als_sampled_uniform_stop", "tensorly.decomposition.tensor_ring_als_sampled", run_tr_als_sampled, dict(n_samples=40, uniform_sampling=True, _stop_at=1), G, [3], [4]),
         ("randomised", "tensorly.decomposition.randomised_parafac", run_randomised, dict(), G, [3, 4], K),
         ("randomised_noisy", "tensorly.decomposition.randomised_parafac", run_randomised, dict(n_samples=6), G, [3], K + ([4, 5] if q else [])),
         ("randomised_cb_stop", "tensorly.decomposition.randomised_parafac", run_randomised, dict(_cb=True, _stop_at=2), G, [3], [6]),
@@ -492,11 +550,21 @@ def configs(tier):
         ("cmtf", "tensorly.decomposition._cmtf_als.coupled_matrix_tensor_3d_factorization", run_cmtf, dict(init="svd"), G, [3], K),
         ("cmtf_tol", "tensorly.decomposition._cmtf_als.coupled_matrix_tensor_3d_factorization", run_cmtf, dict(init="svd", _tol=1e-3), G, [3], KT),
         ("cmtf_norm", "tensorly.decomposition._cmtf_als.coupled_matrix_tensor_3d_factorization", run_cmtf, dict(init="random", normalize_factors=True), G, [3], K),
+        # the class API: errors_ / decomposition_ stored by fit_transform
+        ("class_CP", "tensorly.decomposition.CP.fit_transform", run_class, dict(_class="CP", init="random", normalize_factors=True), G, [3], K),
+        ("class_CP_ls", "tensorly.decomposition.CP.fit_transform", run_class, dict(_class="CP", init="random", linesearch=True), G, [3], KL[:1]),
+        ("class_CP_NN", "tensorly.decomposition.CP_NN.fit_transform", run_class, dict(_class="CP_NN", init="random"), NN, [3], K),
+        ("class_CP_NN_HALS", "tensorly.decomposition.CP_NN_HALS.fit_transform", run_class, dict(_class="CP_NN_HALS", init="random", normalize_factors=True), NN, [3], K),
+        ("class_Tucker_NN", "tensorly.decomposition._tucker.Tucker_NN.fit_transform", run_class, dict(_class="Tucker_NN", init="random", normalize_factors=True), NN, [3], K),
+        ("class_Tucker_NN_HALS", "tensorly.decomposition._tucker.Tucker_NN_HALS.fit_transform", run_class, dict(_class="Tucker_NN_HALS", init="svd"), NN, [3], K),
+        ("class_Parafac2", "tensorly.decomposition.Parafac2.fit_transform", run_class, dict(_class="Parafac2"), G, [3], K[-1:] + KL[:1]),
+        ("class_RandomizedCP", "tensorly.decomposition.RandomizedCP.fit_transform", run_class, dict(_class="RandomizedCP"), G, [3], K),
+        ("class_ConstrainedCP", "tensorly.decomposition.ConstrainedCP.fit_transform", run_class, dict(_class="ConstrainedCP", non_negative=True), NN, [3], K),
     ]
     return cfg
 
 
-NO_PREFIX = ("nn_tucker_hals",)   # fista / active-set inner loops are capped by the OUTER n_iter_max   # fista/active-set inner loops are capped by the OUTER n_iter_max; PARAFAC2's line search overwrites rec_errors[-1]
+NO_PREFIX = ("nn_tucker_hals", "class_Tucker_NN_HALS")   # fista / active-set inner loops are capped by the OUTER n_iter_max   # fista/active-set inner loops are capped by the OUTER n_iter_max; PARAFAC2's line search overwrites rec_errors[-1]
 SLOW_CONFIGS = ("hals_sparse_norm_exact", "nn_tucker_hals_exact")   # exact=True: seconds of CPU per sweep
 LS_CONFIGS = ("parafac_ls", "parafac_ls_cb", "parafac_ls_norm", "parafac_ls_mask", "parafac_ls_sparse", "parafac2_ls", "parafac2_ls_norm")
 # shapes whose last two modes have the same size: a shortcut pairing the MTTKRP with the wrong factor then yields a wrong NUMBER instead of a shape error
@@ -900,6 +968,52 @@ def event_cases(col, tier, rng):
                     emit(entry, modes, nrm, True, False, False, n, None, [], log.observed(), {"fixed_modes": fixed})
 
 
+def p2_event_cases(col, tier, rng):
+    """parafac2's event sequence (projections, inner ALS update, error computations, cp_normalize) against the instrumented loop model
+    Model/Errors.v:p2_loop_tr; names rebound in tensorly.decomposition._parafac2 (harness side).  The events logged before the first
+    iteration (initialisation) are those of the same call with n_iter_max = 0 and are stripped."""
+    from tensorly.decomposition import parafac2
+    from tensorly.decomposition import _parafac2 as p2_mod
+    chk = col.chk
+    rs = np.random.RandomState(rng.randrange(2 ** 31))
+    X = rs.standard_normal((3, 4, 3))
+    entry = "tensorly.decomposition.parafac2"
+
+    def logged(n, nrm, ls, nn):
+        ev, saved = [], {}
+        def wrap(name, code):
+            orig = getattr(p2_mod, name)
+            saved[name] = orig
+            setattr(p2_mod, name, lambda *a, **k: (ev.append(code), orig(*a, **k))[1])
+        try:
+            wrap("_compute_projections", 5); wrap("parafac", 10); wrap("non_negative_parafac_hals", 10)
+            wrap("_parafac2_reconstruction_error", 2); wrap("cp_normalize", 1)
+            Xin = np.abs(X) + 0.1 if nn else np.array(X)
+            st, out = C.call_impl(parafac2, Xin, 2, n_iter_max=n, tol=1e-300, return_errors=True, random_state=11, init="random", n_iter_parafac=2,
+                                  normalize_factors=nrm, linesearch=ls, nn_modes=[0] if nn else None, timeout=60)
+        finally:
+            for name, f in saved.items():
+                setattr(p2_mod, name, f)
+        return st, out, ev
+
+    for nrm in (False, True):
+        for ls in (False, True):
+            for nn in (False, True):
+                for n in ((1, 9) if tier == "quick" else (1, 2, 7, 8, 9, 13)):
+                    if tier == "quick" and nn and not (nrm and ls):
+                        continue
+                    st0, _, ev0 = logged(0, nrm, ls, nn)
+                    st, out, ev = logged(n, nrm, ls, nn)
+                    if st0 != "ok" or st != "ok" or ev[:len(ev0)] != ev0:
+                        chk.hist("skipped", f"p2 events: {str(out)[:50]}"); continue
+                    observed = ev[len(ev0):]
+                    lit = f"(KP2Events {C.boolc(ls)} {C.boolc(nrm)} {C.nat(n)} {C.nat_list(observed)})"
+                    col.add(lambda P, lit=lit: lit, dict(inputs=dict(normalize_factors=nrm, linesearch=ls, nn_modes=[0] if nn else None, n_iter_max=n, observed_events=observed),
+                                                         what="parafac2 event-level trace (5 = projections, 10 = inner ALS update, 2 = error computation, 1 = cp_normalize)", entry=entry))
+                    chk.count(key=("p2_events", nrm, ls, nn, n), nontrivial=n > 6)
+                    chk.hist("kind", "p2_events")
+
+
 # ----------------------------------------------------------------------------- direct calls of _parafac2_reconstruction_error
 def parafac2_error_cases(col, tier, rng):
     """random decompositions (orthonormal projections - the function validates that -, slices of different heights, with / without
@@ -1057,7 +1171,10 @@ def gen_runs(tier, rng):
                 # one shape per (config, order), data kind rotating with the seed
                 picks = [(shp[rng.randrange(len(shp))], kinds[rng.randrange(len(kinds))])]
             else:
-                picks = [(s, kd) for s in shp for kd in kinds]
+                # thorough: every shape of the order, the data kind rotating with the seed (one Coq case costs ~0.2 s CPU: all shapes x all
+                # kinds x all prefix lengths does not fit the 15-minute budget)
+                rot = rng.randrange(len(kinds))
+                picks = [(s_, kinds[(j + rot) % len(kinds)]) for j, s_ in enumerate(shp)]
             if name in SLOW_CONFIGS:
                 picks = picks[:2]
             if name in LS_CONFIGS:
@@ -1070,7 +1187,7 @@ def gen_runs(tier, rng):
             for shape, kind in picks:
                 seed = rng.randrange(1, 2 ** 31 - 1)
                 rank = 2 if min(shape) < 3 or rng.random() < 0.5 else 3
-                if name.startswith("parafac2"):
+                if name.startswith(("parafac2", "class_Parafac2")):
                     rank = min(rank, shape[2], shape[1])
                 yield name, entry, runner, opts, kind, shape, rank, seed, ks, None
 
@@ -1185,6 +1302,8 @@ def run(chk):
             o["_Y"] = A @ V.T + 0.1 * rs.standard_normal((shape[0], 3))
         recs = {}
         for k in ks:
+            # thorough: every prefix length runs and is judged by the Python predicates; Coq cases for the first, the third and the longest one
+            light_k = light or (chk.tier != "quick" and X_pinned is None and len(ks) > 3 and k not in (ks[0], ks[2], ks[-1]))
             st, rec = one_run(runner, X, rank, k, seed, o)
             nruns += 1
             chk.hist("algorithm", name); chk.hist("order", len(shape)); chk.hist("data", kind); chk.hist("outcome", st)
@@ -1196,15 +1315,19 @@ def run(chk):
             recs[k] = rec
             if series(rec) and not rec.squared_unnormalised and series(rec)[-1] > 0.999:
                 chk.hist("degenerate_iterate(error ~ 1)", name)
-            nf = check_run(col, name, entry, X, kind, rank, k, seed, o, rec, light=light and not (rec.ls and rec.ls[-1] is False))
-            if name.startswith("parafac2") and "_tol" not in o and rec.errors is not None:
+            nf = check_run(col, name, entry, X, kind, rank, k, seed, o, rec, light=light_k and not (light and rec.ls and rec.ls[-1] is False))
+            if light_k and not light:
+                continue_light = True
+            else:
+                continue_light = False
+            if name.startswith("parafac2") and "_tol" not in o and rec.errors is not None and not continue_light:
                 # PARAFAC2 loop skeleton, observable projection: number of recorded values (one per iteration, line search included)
                 ls_on = o.get("linesearch", True) is not False
                 lit_len = (f"(KP2Len {C.boolc(ls_on)} {C.boolc(bool(o.get('normalize_factors')))} {C.nat(getattr(rec, 'executed', k))} {C.nat(len(rec.errors))})")
                 col.add(lambda P, lit_len=lit_len: lit_len, dict(inputs=describe(name, entry, X, kind, rank, k, seed, o), what="PARAFAC2 skeleton: number of reported values",
                                                                   entry=entry))
                 chk.count(key=(name, "p2len", k), nontrivial=k > 6)
-            if name.startswith(("tucker", "partial_tucker", "nn_tucker", "cmtf", "randomised")) and "_tol" not in o and rec.errors is not None:
+            if name.startswith(("tucker", "partial_tucker", "nn_tucker", "cmtf", "randomised")) and "_tol" not in o and rec.errors is not None and not continue_light:
                 # one-value-per-iteration loops, observable projection of Model/Errors.v:s_loop: number of recorded values (callback stop included)
                 stop_at = o.get("_stop_at") if o.get("_cb") else None
                 lit_s = f"(KSLoop {C.nat(k)} {optnat(stop_at)} {C.nat(len(rec.errors))})"
@@ -1225,6 +1348,11 @@ def run(chk):
     parafac2_error_cases(col, chk.tier, rng)
     normalize_cases(col, chk.tier, rng)
     trace_cases(col, chk.tier, rng)
+    try:
+        p2_event_cases(col, chk.tier, rng)
+    except AttributeError as ex:     # a renamed helper cannot be interposed any more: skipped and counted, never a verdict
+        skipped += 1
+        chk.hist("skipped", f"parafac2 event traces: {ex}"[:80])
     try:
         event_cases(col, chk.tier, rng)
     except AttributeError as ex:     # a renamed helper cannot be interposed any more: the event cases are skipped, never a verdict
